@@ -94,6 +94,20 @@ claim("C15",
       "compile-time layout witnesses + bounded-field (sanitiser) rule + sibling comparison of the two table look-ups",
       "DESIGN.md section 3, C15")
 
+claim("C06",
+      "Error discipline and gating, structurally: (S1) every diagnostic of catalogue class error/fatal, at each of its ~250 "
+      "call sites in the whole compiler (wrappers inferred through the call graph), is raised through an entry point that "
+      "increments the error counter, except four frozen deliberate downgrades; (S2) on the CFG of the compile drivers no "
+      "middle/back-end, link or run step is reachable except across an 'error count is zero' edge, the gating predicates "
+      "test the count first, and scope binding / type inference are separated from earlier phases by an error test; (S3) "
+      "partial outputs are cleaned up whenever the total is positive. This is the 'rejected means non-zero exit and no "
+      "output' half of C06; completeness/soundness of the type checker itself is not decided.",
+      "Trusted: clang 14 AST/CFG; message class = macro name ALDOR_<class>_ as generated from comsgdb.msg; the frozen list "
+      "rules/frozen/c06_downgrades.json (one reason per site).",
+      "error-discipline rule over resolved call sites (call-graph wrapper inference) + must-pass-through gate analysis on "
+      "the clang CFG",
+      "DESIGN.md section 3, C06")
+
 PENDING_REASON = "check designed in DESIGN.md but not yet built in this tree; not claimed until it runs"
 
 
